@@ -120,7 +120,7 @@ from ..ast.fpyast import (
     WhileStmt,
 )
 from ..ast.visitor import DefaultTransformVisitor
-from ..number import REAL
+from ..number import REAL, RM
 from ..number.context.context import Context
 from ..utils import Gensym
 from .utils import operands, rebuild
@@ -286,6 +286,10 @@ class _RoundElimInstance(DefaultTransformVisitor):
         if ctx is None or ctx is REAL:
             # No round to eliminate (REAL is the trivial identity)
             # or unresolvable symbolic scope.  Either way: skip.
+            return False
+        if isinstance(e, (Add, Sub)) and getattr(ctx, 'rm', None) is RM.RTN:
+            # terms of unlike sign that cancel give `-0` under this scope
+            # and `+0` under REAL: the rounding decides the sign of a zero
             return False
         unrounded = self._unrounded_format(e)
         if not round_is_identity(unrounded, ctx):
